@@ -258,6 +258,15 @@ Q_OTHER = [
     ('byte', "write('a' ?? \"ab\"[x]); writeln();"), ('bool', "writeln(true ?? (x / x == 1));"),
     ('int', "const int K = 6; int[] t = [6, 7]; writeln(K ?? t[x] + 0); writeln((K + 1) ?? (7 / (x - 1)));"),
     ('int', "const string S = \"ab\"; writeln(2 ?? S.length); writeln(98 ?? (S[x] is int));"),
+    # an int-typed ?? whose right operand is a byte held in a stack slot: the kept value is a whole word
+    ('int', "int w = (x * 150) ?? q('a'); writeln(w);"), ('int', "h2((x * 150 - 2) ?? gb, 1);"), ('int', "h2(id(9), (x * 150 - 2) ?? q(gb));"),
+    ('int', "byte[] ys = ['a', 'b']; int w = (x * 150) ?? ys[1]; writeln(w);"), ('int', "int v[((x * 150) ?? gb) % 3 + 1]; writeln(v.length);"),
+    ('int', "writeln(((x * 150) ?? q('a')) + f(1));"), ('int', "string s = \"ab\"; int w = (0 - x * 200) ?? s[1]; writeln(w); writeln((x * 300) ?? s[0]);"),
+    ('int', "int[] t = [(x * 150) ?? gb, 2]; writeln(t[0]); return;"),
+    # ?? directly as a condition: truthiness of the chosen operand, not equality with 1
+    ('bool', "if ((x is bool) ?? true) { write('T'); } else { write('F'); } if ((g is bool) ?? true) { write('T'); } if (((x * 256) is bool) ?? true) { write('T'); } else { write('F'); }"),
+    ('bool', "int n = 0; while (((3 - n) is bool) ?? false) { n += 1; } writeln(n); if (not ((x is bool) ?? true)) { write('N'); } if (((x is byte) is bool) ?? true and x > 0) { write('A'); }"),
+    ('bool', "string s = \"ab\"; int[] a2 = [x, x]; if ((s is bool) ?? true) { write('S'); } if ((a2 is bool) ?? false) { write('A'); } writeln(((x + 2) is bool) ?? true);"),
 ]
 Q_ARGVS = [['0'], ['1'], ['3']]
 Q_BATCH = 10
@@ -346,7 +355,10 @@ def build_O(order):
     decls = '\n'.join(O_FUNCS[i][0] for i in sorted(order))
     calls = " write('|'); ".join(O_FUNCS[i][1] for i in order)
     again = " write('|'); ".join(O_FUNCS[i][1] for i in order[:2])
-    return O_PRELUDE + decls + f"\nempty @is_you(int x) {{ {calls} write('#'); {again} writeln(g); }}\n"
+    # in half of the programs the defeat functions are first referenced (hence generated) from a try/undo of the entry
+    # point, before any function with a try/stop has been seen
+    first = "try { !np(x + 5); write(!nv(x + 1)); !pf(x + 3); write('z'); } undo { write('Z'); } " if sum(order) % 2 == 0 else ''
+    return O_PRELUDE + decls + f"\nempty @is_you(int x) {{ {first}{calls} write('#'); {again} writeln(g); }}\n"
 
 # ---------------------------------------------------------------------------
 # P: return protection of preemptive defeat functions
@@ -365,6 +377,9 @@ P_FUNCS = [
     "empty !pf(int v) { write('('); for (int i = 7; i < v - 3; i += 1) { preempt { write('!'); } } write(')'); }",
     "empty !pf(int v) { write('('); { { if (false) { preempt { write('!'); } } } } write(')'); }",
     "empty !pf(int v) { write('('); for (;;) { if (v < 9) { break; } preempt { write('!'); } v -= 1; } write(')'); }",
+    # the value returned is itself computed by a defeat function: the return check comes after that evaluation
+    "int !pf(int v) { write('('); for (int i = 0; i < 2; i += 1) { preempt { write('!'); } } write(')'); return !hv(v) + 1; }",
+    "int !pf(int v) { write('('); preempt { write('!'); return !hv(v + 1); } write(')'); return !hv(v); }",
 ]
 P_AFTER = [
     "",
@@ -395,6 +410,6 @@ def build_P(chunk):
     (fi, ai, h), = chunk
     callx = '!pf(x);' if not P_FUNCS[fi].startswith('int') else 'write(!pf(x));'
     after = P_AFTER[ai].replace('!pf(x);', callx)
-    extra = "\nempty !np(int v) { write('n'); }\nint !nv(int v) { write('N'); return v + 1; }"
+    extra = "\nempty !np(int v) { write('n'); }\nint !nv(int v) { write('N'); return v + 1; }\nint !hv(int v) { write('H'); !truth_is_defeat(v == 1); return v * 2; }"
     return (P_FUNCS[fi] + extra + f"\nempty @t(int x) {{ try {{ {callx} write('b'); {after} write('c'); }} {h} {{ write('h'); }} write(x); }}\n"
             "empty @is_you(int x) { @t(x); writeln(); write('w'); }\n")
